@@ -859,3 +859,79 @@ Example good_recovers :
   /\ sp_named ["sp"; "spenc2"] true true (damage w) = None
   /\ exposed (rcpt x_good) w = [].
 Proof. eexists. repeat split. Qed.
+
+(* ------------------------------------------------------------------------------------------------ *)
+(* Options that come from the per-call argument, the IdP configuration or the defaults (Model.gather, Spec.requested) *)
+
+(* an option whose signature default is None is exactly what was asked for: argument, else configuration, else default *)
+Lemma pick_asked d o : sig_default d = None -> pick d o = asked (param_default d) o.
+Proof. intros H. unfold pick, asked, kw_value. rewrite H. destruct (o_arg o); reflexivity. Qed.
+
+(* the Server entry: encrypted_advice_attributes and encrypt_assertion_self_contained make no observable difference
+   (an Advice exists there only under PEFIM, which forces both) — neither for the Response nor for what the property
+   demands *)
+Lemma server_eadv_sc_idp x e1 c1 e2 c2 : i_entry x = Server ->
+  idp (with_flags x (sr x) (sa x) (ea x) e1 c1) = idp (with_flags x (sr x) (sa x) (ea x) e2 c2).
+Proof.
+  destruct x as [en sr0 sa0 ea0 eadv0 sc0 pf m ca cadv sj atv lv]. cbn. intros ->.
+  unfold idp, effective, with_flags. cbn. destruct pf; [reflexivity|].
+  unfold response. cbn. now rewrite !andb_false_r.
+Qed.
+Lemma server_guard x : i_entry x = Server -> guard x.
+Proof.
+  destruct x as [en sr0 sa0 ea0 eadv0 sc0 pf m ca cadv sj atv lv]. cbn. intros ->.
+  unfold guard, guard_e, region3, effective. cbn. destruct pf; cbn; [reflexivity | now rewrite andb_false_r].
+Qed.
+
+Lemma model_obs_idp x y ts : idp x = idp y -> all_atoms x = all_atoms y -> model_obs x ts = model_obs y ts.
+Proof. intros H1 H2. unfold model_obs, bytes_of. rewrite H1, H2. reflexivity. Qed.
+
+(* the property for calls through the public API: whatever way the options are given (argument, None, configuration,
+   nothing), what the model produces satisfies the property read on what was REQUESTED *)
+Theorem spec_call_holds : forall k ts, guard (requested k) -> spec_call k (model_obs (gather k) ts).
+Proof.
+  intros [x [s|]] ts Hg; unfold spec_call; cbn in *; [|now apply spec_holds].
+  unfold gather, gather_with. destruct (i_entry x) eqn:En; [|now apply spec_holds].
+  rewrite !pick_asked by reflexivity. cbn [param_default code_defaults t_sr t_sa t_ea].
+  set (a := asked false (s_sr s)). set (b := asked false (s_sa s)). set (c := asked false (s_ea s)).
+  set (xr := with_flags x a b c (asked false (s_eadv s)) (asked true (s_sc s))).
+  set (xg := with_flags x a b c (pick (t_eadv code_defaults) (s_eadv s)) (pick (t_sc code_defaults) (s_sc s))).
+  assert (Er : i_entry xr = Server) by exact En.
+  assert (Hi : idp xg = idp xr).
+  { exact (server_eadv_sc_idp xr _ _ _ _ Er). }
+  change (spec xr (model_obs xg ts)).
+  rewrite (model_obs_idp xg xr ts Hi eq_refl). now apply spec_holds.
+Qed.
+
+(* ... and a request made in the configuration alone is a request: with a usable certificate of the recipient the
+   assertion goes out encrypted *)
+Theorem config_request_encrypts : forall x s w,
+  i_entry x = Server -> o_arg (s_ea s) <> Passed false -> (o_arg (s_ea s) = Passed true \/ o_cfg (s_ea s) = Some true) ->
+  avail (rcpt_main x) -> idp_call (x, Some s) = Wire w ->
+  exists c a, w_top w = TopEnc c a /\ In c (rcpt_main x) /\ usable c.
+Proof.
+  intros x s w En Hnf Hreq Hav Hw. unfold idp_call, gather, gather_with in Hw. rewrite En in Hw.
+  set (xg := with_flags x _ _ _ _ _) in Hw.
+  assert (Eg : i_entry xg = Server) by exact En.
+  apply (main_encrypted xg w (server_guard xg Eg)); auto.
+  unfold xg, with_flags. cbn [ea]. rewrite pick_asked by reflexivity. unfold asked.
+  destruct (o_arg (s_ea s)) as [| |[|]]; try reflexivity; try (now exfalso; apply Hnf);
+    destruct Hreq as [Hq|Hq]; try discriminate; now rewrite Hq.
+Qed.
+
+(* the defaults matter: with the default of encrypt_assertion in the signature of create_authn_response set to False
+   (instead of None) a request made in the IdP configuration is lost and the property fails on a concrete call *)
+Definition k_config_only : call :=
+  (mkinput Server false false false false true false [(UEnc, Good "sp")] None None "subject" ["value"] [],
+   Some (mksrcs (mkopt NotPassed None) (mkopt NotPassed None) (mkopt NotPassed (Some true))
+                (mkopt NotPassed None) (mkopt NotPassed None))).
+Definition defaults_ea_false : deftab :=
+  mkdeftab (t_sr code_defaults) (t_sa code_defaults) (mkoptdef (Some false) false) (t_eadv code_defaults) (t_sc code_defaults).
+Theorem signature_default_matters :
+  ea (requested k_config_only) = true /\ avail (rcpt_main (requested k_config_only))
+  /\ spec_call k_config_only (model_obs (gather k_config_only) ts0)
+  /\ ~ spec_call k_config_only (model_obs (gather_with defaults_ea_false k_config_only) ts0).
+Proof.
+  split; [reflexivity|]. split; [apply avail_b_iff; reflexivity|].
+  split; [apply spec_b_iff; vm_compute; reflexivity | apply refute; vm_compute; reflexivity].
+Qed.
